@@ -1,9 +1,9 @@
 SPECIFICATION Spec
 CONSTANTS
   MaxOps = 3
-  UnitKinds = {"set32", "set64", "getp", "getq"}
-  MaxPos = 3
-  Sigs = {}
+  UnitKinds = {"getp"}
+  MaxPos = 2
+  Sigs = {1, 2}
 INVARIANTS
   TreeShaped
   FlatBalanced
